@@ -91,11 +91,12 @@ class Ctx:
 
     def floor(self, rule, name, count, minimum):
         """A rule must have matched at least `minimum` instances (counted when armed)."""
-        # The floor is there so that a rule which has stopped matching cannot pass vacuously; it is not a census.  Merging
-        # duplicated code into one helper legitimately removes instances (three copies of a reader become one), so the
-        # alarm threshold is half the count confirmed when the rule was armed (never below 1; small floors are kept as they
-        # are).  An instance that loses the *property* still fails its own obligation — it does not vanish.
-        need = minimum if minimum <= 2 else (minimum + 1) // 2
+        # The floor is there so that a rule which has stopped matching cannot pass vacuously.  Small floors (≤ 8) are exact
+        # counts of hand-confirmed sites and stay exact — losing one of three "merges on adjacency" functions is how a seeded
+        # change shows.  Large floors count many like instances (30 byte-order conversions, 40 read sites); merging duplicated
+        # code into one helper legitimately removes a few, so they alarm below three quarters of the armed count.  An instance
+        # that loses the *property* still fails its own obligation — it does not vanish.
+        need = minimum if minimum <= 8 else (3 * minimum + 3) // 4
         return self.ob(rule, "floor:" + name, count >= need,
                        "%s: matched %d instance(s), %d when armed, alarm below %d" % (name, count, minimum, need),
                        nontrivial=False)
